@@ -65,7 +65,7 @@ RULE = ('objects: unsegmented (Data named exactly the prefix / with a version / 
         'from 1 ms to 4 lifetimes of the fetcher, CanBePrefix / MustBeFresh either way, answered (in time, late, by an invalid '
         'Data, by a Data with a longer name that satisfies only them), Nacked, left to time out or given up (task cancelled) at '
         'any time; a second segment_fetcher with another timeout / limit and its own loss script runs beside it (judged by the '
-        'same oracle; of another object - of the same object with VERIF_C19_SAME_OBJECT=1, a finding); Interests arrive for '
+        'same oracle; of the same or of another object); Interests arrive for '
         'prefixes the application serves (the fetched prefix among them) and its handler replies or not; every packet that '
         'reaches the application counts for the fate of the fetcher\'s Interest it matches, whoever asked for it; non-trivial = at least two Interests were sent and something was yielded or a retry happened; '
         'distinct = distinct (object, discovery, limit, script)')
@@ -301,17 +301,19 @@ def _second_fetch(rng, T, at, nreq):
     T2 = rng.choice([x for x in (T // 4, T // 2, T - 1, T + 1, 2 * T, 3 * T) if x > 0 and x != T])
     script = ''.join(rng.choice('ddddddtv' if rng.random() < 0.15 else 'dddddt') for _ in range(rng.randint(0, nreq + 2)))
     return dict({'kind': 'fetch', 'at': at, 'lag': rng.choice([0, 0, 1, T // 10, T // 2, T]), 'timeout_ms': T2,
-                 'retry': rng.choice([0, 1, 2, 3]), 'script': script, 'delays': [_delay(rng, T2, o) for o in script]}, **_same())
+                 'retry': rng.choice([0, 1, 2, 3]), 'script': script, 'delays': [_delay(rng, T2, o) for o in script]}, **_same(rng))
 
 
-def _same():
-    """A second fetch on the same application fetches an object of the same shape under another prefix.  A second fetch of
-    the SAME object is a known defect of the library (finding C19 shared-name-list: the fetcher writes the next segment
-    number into the name list express_interest returned, which the legacy NDNApp hands to every Interest the same Data
-    satisfied - two fetchers of one object then step on each other's names); it is generated only with
-    VERIF_C19_SAME_OBJECT=1."""
+def _same(rng=None):
+    """A second fetch on the same application fetches the SAME object (half of the cases) or an object of the same shape
+    under another prefix.  Two fetches of one object used to step on each other's names (the fetcher wrote the next
+    segment number into the name list express_interest returned, which the legacy NDNApp hands to every Interest the
+    same Data satisfied): repaired in /repo (fix: segment_fetcher builds a new name list for every Interest), the
+    reverse patch is mutants/C19/shared-name-list.diff."""
     import os
-    return {'same': True} if os.environ.get('VERIF_C19_SAME_OBJECT') else {}
+    if os.environ.get('VERIF_C19_SAME_OBJECT') == '0':
+        return {}
+    return {'same': True} if (rng is None or rng.random() < 0.5) else {}
 
 
 def _busy_targeted(rng, tier):
